@@ -499,12 +499,12 @@ mutual
 /-- invariants of every object reachable through `P`, `PP`, `Sum[...]`, `Q[...]`, `One()`, `Zero()`, `*`, `/` when each
 distribution / subscript / range / Q-(co)domain mentions a name at most once: children, parents, ranges, (co)domains
 sorted by name; products flat, of two or more factors that are neither constants nor products, left in the order a
-stable sort by `lt` leaves them; no `Zero()` under a `Sum` or as a denominator -/
+stable sort by `lt` leaves them; `Zero()` occurs only as the whole expression -/
 def built : Expr → Bool
   | .prob pop c p => !c.isEmpty && incBy Var.name c && incBy Var.name p && c.all canonVar && p.all canonVar && canonPop pop
   | .prod fs => decide (2 ≤ fs.length) && builtFactors fs && noDescent lt fs
   | .sum e rs => !rs.isEmpty && incBy Var.name rs && rs.all plainVar && built e && !isZero e
-  | .frac n d => built n && built d && !isZero d
+  | .frac n d => built n && built d && !isZero d && !isZero n
   | .one => true
   | .zero => true
   | .q dom cod => !dom.isEmpty && !cod.isEmpty && incBy Var.name dom && incBy Var.name cod && dom.all canonVar && cod.all canonVar
